@@ -12,6 +12,7 @@ LitB(v)     == [k |-> "lit", ty |-> "bool", v |-> v]
 LitS(v)     == [k |-> "lit", ty |-> "str", v |-> v]
 LitF(n, d)  == [k |-> "lit", ty |-> "float", v |-> [n |-> n, d |-> d]]       \* a python float n / d (d a power of two)
 LitN        == [k |-> "lit", ty |-> "null", v |-> NULL]
+LitTN(ty)   == [k |-> "lit", ty |-> ty, v |-> NULL, typed |-> TRUE]                  \* a typed null literal: pdt.lit(None, <type>)
 Fn1(o, a)       == [k |-> "fn", op |-> o, a |-> <<a>>]
 Fn2(o, a, b)    == [k |-> "fn", op |-> o, a |-> <<a, b>>]
 Fn3(o, a, b, c) == [k |-> "fn", op |-> o, a |-> <<a, b, c>>]
@@ -26,10 +27,13 @@ Ord(e, d, nl)   == [e |-> e, desc |-> d, nl |-> nl]
 Win(o, as, os)  == [k |-> "win", op |-> o, a |-> as, pk |-> "ctx", part |-> <<>>, ord |-> os, n |-> 0, fill |-> <<>>]
 WinP(o, as, os, pp) == [k |-> "win", op |-> o, a |-> as, pk |-> "ids", part |-> pp, ord |-> os, n |-> 0, fill |-> <<>>]
 Shift(x, n, fl, os) == [k |-> "win", op |-> "shift", a |-> <<x>>, pk |-> "ctx", part |-> <<>>, ord |-> os, n |-> n, fill |-> fl]
+ShiftX(x, n, fl, os) == [k |-> "win", op |-> "shift", a |-> <<x>>, pk |-> "ctx", part |-> <<>>, ord |-> os, n |-> n, fill |-> fl, nx |-> TRUE]   \* the offset written as a constant expression
 Case1(c, v)         == [k |-> "case", cs |-> <<[c |-> c, v |-> v]>>, d |-> <<>>]
 Case1D(c, v, d)     == [k |-> "case", cs |-> <<[c |-> c, v |-> v]>>, d |-> <<d>>]
 Case2D(c1, v1, c2, v2, d) == [k |-> "case", cs |-> <<[c |-> c1, v |-> v1], [c |-> c2, v |-> v2]>>, d |-> <<d>>]
 Cast(x, to)     == [k |-> "cast", e |-> x, to |-> to]
+(* a non-strict cast (strict=False: null instead of an error for values that do not convert; the same value where they do) *)
+CastNS(e, to)   == [k |-> "cast", e |-> e, to |-> to, ns |-> TRUE]
 (* the same cast written with the generic target type (pdt.Float() instead of pdt.Float64) *)
 CastG(e, to)    == [k |-> "cast", e |-> e, to |-> to, g |-> TRUE]
 Mark(o, x)      == [k |-> "mark", op |-> o, a |-> <<x>>]
